@@ -98,6 +98,28 @@ def _span_key(sp):
     return (int(m.group(1)), int(m.group(2))) if m else (0, 0)
 
 
+def debug_assert_blocks(body):
+    """blocks that only run under `cfg!(debug_assertions)`: the true-edge region of the `if cfg!(debug_assertions)` test that
+    debug_assert*! expands to (condition evaluation, comparison, panic)"""
+    out = set()
+    for i, b in enumerate(body.blocks):
+        if b.get("cleanup"):
+            continue
+        for s in b["stmts"]:
+            if s["k"] == "assign" and s["rv"]["k"] == "use" and s["rv"]["op"].get("k") == "const" and s["rv"]["op"].get("bool") is True \
+                    and any("debug_assert" in m for m in s.get("macros", [])) and any(m.endswith("cfg") for m in s.get("macros", [])):
+                t = b["term"]
+                if t["k"] == "switch" and t["discr"].get("k") in ("copy", "move") and t["discr"]["pl"]["l"] == s["pl"]["l"]:
+                    false_t = None
+                    for v, x in t["targets"]:
+                        if v == 0:
+                            false_t = x
+                    true_t = t["otherwise"] if false_t is not None else None
+                    if true_t is not None:
+                        out |= flow.reach_avoiding(body, [true_t], [false_t])
+    return out
+
+
 def enumerate_sites(body, include_alloc=True, narrowing=False):
     sites = []
     for c in body.calls():
@@ -138,6 +160,17 @@ def enumerate_sites(body, include_alloc=True, narrowing=False):
             if kind == "overflow":
                 what = "overflow:" + t.get("detail", {}).get("op", "?")
             sites.append(Site(body, "assert", what, t["span"], None, i, extra=t))
+    # debug assertions are compiled out of release builds (`cfg(debug_assertions)`): the checks decide the shipped behaviour, so neither the
+    # assertion's panic nor the arithmetic inside its condition counts as a site (assumption listed in DESIGN §5)
+    def _dbg(s):
+        ms = (s.call.macros if s.call is not None else (s.extra or {}).get("macros", [])) if not isinstance(s.extra, str) else []
+        if s.call is None and s.bb is not None and s.kind == "assert":
+            ms = body.blocks[s.bb]["term"].get("macros", [])
+        if s.call is None and s.kind == "cast":
+            ms = []
+        return any("debug_assert" in m for m in (ms or []))
+    dbg_blocks = debug_assert_blocks(body)
+    sites = [s for s in sites if not _dbg(s) and s.bb not in dbg_blocks]
     # ordinals per (what) in source order
     groups = {}
     for s in sorted(sites, key=lambda s: (s.origin, _span_key(s.span), s.bb or 0)):
@@ -351,6 +384,8 @@ def d5_counter(site, body):
                     a_ty = a_ty.replace("&mut ", "").replace("&", "")
             else:
                 a_ty = "usize"
+            if a_ty not in ("usize", "u64") and b.get("ty") in ("usize", "u64"):
+                a_ty = b["ty"]          # a projected place (`*counter`, `self.n`): both operands of the addition have one type
             if a_ty in ("usize", "u64"):
                 return "D5: +1 on a %s counter" % a_ty
     return None
@@ -879,6 +914,30 @@ def rule_loop_index(site, body):
             if stale:
                 continue
             return "loop-index: guarded by idx < len() (bb%d) with the bound re-read after every removal" % gbb
+    # (d) the Some arm of `v.get(idx)` / `v.get_mut(idx)` on the same vector with the same index, no removal in between
+    for g in body.calls():
+        if strip_generics(g.callee) in ("core::slice::<impl [T]>::get_mut", "core::slice::<impl [T]>::get") and len(g.args) > 1 and g.dest is not None:
+            if flow.root_local(body, g.args[1]) != idx_root:
+                continue
+            src = flow.root(body, g.args[0], through_calls=tuple(flow.ADAPTERS))
+            gid = None
+            if src[0] == "rv" and "pl" in src[1]:
+                gid = place_identity(body, {"k": "copy", "pl": src[1]["pl"]})
+            elif src[0] in ("arg", "multi", "local"):
+                gid = place_identity(body, {"k": "copy", "pl": {"l": src[1], "p": []}})
+            if gid != vec_id:
+                continue
+            m = flow.switch_after_call(body, g, want_bb=True)
+            if not m or "Some" not in m[0]:
+                continue
+            some_t, sbb = m[0]["Some"], m[1]
+            if not (body.dominates(some_t, site.bb) or site.bb == some_t):
+                continue
+            after = {x for x in flow.reach_avoiding(body, [some_t], [site.bb, sbb]) if site.bb in flow.reach_avoiding(body, [x], [sbb])}
+            # the index must not change and nothing may be removed between the test and the use
+            idx_writes = [i2 for i2, j2, pl2, rv2, s2 in body.assigns() if pl2["l"] == idx_root and not pl2["p"] and i2 in after]
+            if not [h for h in shr if h is not c and h.bb in after] and not idx_writes:
+                return "loop-index: inside the Some arm of get(idx) on the same vector (bb%d), index and length unchanged since" % sbb
     # (c) index found by Iterator::position / rposition over the same vector, no removal in between
     r0 = flow.payload_source(body, c.args[1])
     if r0 and r0[0] == "call" and strip_generics(r0[1].callee) in ("core::iter::traits::iterator::Iterator::position", "core::iter::traits::iterator::Iterator::rposition"):
@@ -938,6 +997,10 @@ def rule_sub_one_guard(site, body):
                         if not [h for h in shr if h.bb in between and site.bb in flow.reach_avoiding(body, [h.target] if h.target is not None else [], [gbb])]:
                             return "x < v.len() dominates v.len() - 1 with no removal in between (bb%d)" % gbb
     for op, x, y, gbb in cmp_guards(body, site.bb):
+        # L != 0 (the continue edge of `if L == 0 { break }`)
+        if op == "Ne" and ((flow.const_of(y) == 0 and op_local(x) is not None and flow.root_local(body, x) == ar) or
+                           (flow.const_of(x) == 0 and op_local(y) is not None and flow.root_local(body, y) == ar)):
+            return "L != 0 dominates L - 1 (bb%d)" % gbb
         if op == "Lt" and (flow.root_local(body, y) if op_local(y) is not None else None) == ar:
             return "x < L dominates L - 1 (bb%d)" % gbb
         if op == "Gt" and (flow.root_local(body, x) if op_local(x) is not None else None) == ar:
